@@ -597,3 +597,9 @@ kproof_vp! {
     #[kani::stub(preflate_ref::preflate_error::PreflateError::add_context, crate::verif_common::stub_ref_add_context)]
     fn k04m_predict_equiv_3() { predict_equiv::<3>(); }
 }
+
+// accessors for contract stubs living in other harness modules (process.rs: k02p_*)
+impl<'a> TokenPredictor<'a> {
+    pub fn verif_remaining(&self) -> u32 { self.input.remaining() }
+    pub fn verif_advance(&mut self, n: u32) { self.input.advance(n) }
+}
